@@ -87,7 +87,7 @@ Proof.
                   | Some l =>
                       if has_flag c F_SIGPUSHONLY && negb (is_push_only u) then (VErr, [], [])
                       else
-                        let p2sh := has_flag c F_BIP16 && is_p2sh lbytes in
+                        let p2sh := has_flag c F_BIP16 && negb (after_genesis c) && is_p2sh lbytes in
                         if p2sh && negb (is_push_only u) then (VErr, [], [])
                         else execute_dbg so c p2sh u l
                   end
@@ -102,7 +102,7 @@ Proof.
               | Some l =>
                   if has_flag c F_SIGPUSHONLY && negb (is_push_only u) then (VErr, [])
                   else
-                    let p2sh := has_flag c F_BIP16 && is_p2sh lbytes in
+                    let p2sh := has_flag c F_BIP16 && negb (after_genesis c) && is_p2sh lbytes in
                     if p2sh && negb (is_push_only u) then (VErr, [])
                     else execute so c p2sh u l
               end
@@ -114,7 +114,7 @@ Proof.
     destruct (parse_script (c_err_on_checksig c) lbytes) as [l|]; [|reflexivity].
     destruct (has_flag c F_SIGPUSHONLY && negb (is_push_only u)); [reflexivity|].
     cbv zeta.
-    destruct (has_flag c F_BIP16 && is_p2sh lbytes && negb (is_push_only u)); [reflexivity|].
+    destruct (has_flag c F_BIP16 && negb (after_genesis c) && is_p2sh lbytes && negb (is_push_only u)); [reflexivity|].
     apply execute_dbg_fst. }
   destruct (ei_unlock i) as [|ub ur]; destruct (ei_lock i) as [|lb lr]; try reflexivity; apply Hbody.
 Qed.
@@ -313,7 +313,7 @@ Proof.
                   | Some l =>
                       if has_flag c F_SIGPUSHONLY && negb (is_push_only u) then rejected
                       else
-                        let p2sh := has_flag c F_BIP16 && is_p2sh lbytes in
+                        let p2sh := has_flag c F_BIP16 && negb (after_genesis c) && is_p2sh lbytes in
                         if p2sh && negb (is_push_only u) then rejected
                         else execute_dbg so c p2sh u l
                   end
@@ -324,7 +324,7 @@ Proof.
     destruct (parse_script (c_err_on_checksig c) ubytes) as [u|]; [|left; reflexivity].
     destruct (parse_script (c_err_on_checksig c) lbytes) as [l|]; [|left; reflexivity].
     destruct (has_flag c F_SIGPUSHONLY && negb (is_push_only u)); [left; reflexivity|].
-    destruct (has_flag c F_BIP16 && is_p2sh lbytes && negb (is_push_only u)); [left; reflexivity|].
+    destruct (has_flag c F_BIP16 && negb (after_genesis c) && is_p2sh lbytes && negb (is_push_only u)); [left; reflexivity|].
     apply execute_dbg_inv. }
   destruct (ei_unlock i) as [|ub ur]; destruct (ei_lock i) as [|lb lr]; try (left; reflexivity); apply Hbody.
 Qed.
